@@ -37,6 +37,10 @@ THEOREMS = [
     "C02_refines_queue_values",
     "C02_value",
     "C02_flow_early_witness",
+    "C02_macro_edges_kept",
+    "C02_macro_reorders_witness",
+    "C02_macro_order_repaired",
+    "C02_macro_ui_only_touches_starters",
 ]
 RULE = (
     "trigger level: seeded random histories (quick) / every history up to length 6 over 3 emitters and the "
@@ -410,51 +414,25 @@ def _sig(node, c):
 
 
 def _flow_build(case):
+    """the case on real objects: children of a `Workflow(automate_execution=False)`, or of a macro whose graph
+    creator makes the same connections and names the same starting nodes (host = "macro"; with `ui` the macro has
+    an input `x` feeding at least two children, so its UI node stays and is put upstream of the starting nodes)"""
     from pyiron_workflow import Workflow
-    from pyiron_workflow.channels import NOT_DATA
 
     from . import nodes_c02 as N
 
     N.reset()
+    if case.get("host") == "macro":
+        N.MACRO_SPEC[:] = [case]
+        wf = (N.FlowMacro1 if case.get("ui") else N.FlowMacro0)(label="wf")
+        wf.recovery = None
+        ns = list(N.BUILT["ns"])
+        if case.get("ui"):
+            ns.append(wf.children["x"])
+        return N, wf, ns
     wf = Workflow("wf", autoload=None, automate_execution=False)
     wf.recovery = None
-    ns = []
-    for i, nd in enumerate(case["nodes"]):
-        kw = {}
-        for lab, tok in zip(N.SLOTS[nd["kind"]], nd["own"]):
-            v = tok_to_py(tok)
-            kw[lab] = NOT_DATA if v is ND else v
-        n = N.KINDS[nd["kind"]](label=f"n{i}", tag=i, **kw)
-        n.use_cache = bool(nd["cache"])
-        if nd.get("fail"):
-            N.FAIL[i] = set(nd["fail"])
-        wf.add_child(n)
-        ns.append(n)
-    for dst, slot, src in case["data"]:
-        lab = N.SLOTS[case["nodes"][dst]["kind"]][slot]
-        ns[dst].inputs[lab].connect(ns[src].outputs[N.OUT[case["nodes"][src]["kind"]]])
-    for src, c, dst, acc, via in case["sig"]:
-        sig = ns[src].signals.output[CH[c]]
-        recv = ns[dst].signals.input.accumulate_and_run if acc else ns[dst].signals.input.run
-        if via == "connect":
-            recv.connect(sig)
-        elif via == "sconnect":
-            sig.connect(recv)
-        elif via == "rshift":
-            if c == 0 and not acc:
-                ns[src] >> ns[dst]
-            else:
-                sig >> recv
-        elif via == "lshift":
-            if not acc:
-                sig >> ns[dst]
-            elif c == 0:
-                ns[dst] << ns[src]
-            else:
-                ns[dst] << sig
-        else:
-            raise ValueError(via)
-    wf.starting_nodes = [ns[i] for i in case["starters"]]
+    ns = N.build_flow(wf, case)
     return N, wf, ns
 
 
@@ -501,6 +479,7 @@ def _run_flow(case):
         return orig_starting(self, child)
 
     hyp = _wf_hypothesis(ns)
+    by_label_early = {nd.label: i for i, nd in enumerate(ns)}
     outcome, errs = "ok", []
     Node.run = run
     Composite.register_child_starting = starting
@@ -508,7 +487,7 @@ def _run_flow(case):
         wf.run()
     except FailedChildError as e:
         outcome = "failedchild"
-        errs = sorted({int(m) for m in re.findall(r"'/wf/n(\d+)(?:\.\w+)?': ", str(e))})
+        errs = sorted({by_label_early.get(m, 999) for m in re.findall(r"'/wf/(\w+)(?:\.\w+)?': ", str(e))})
     except Runaway:
         outcome = "runaway"
     except Exception as e:  # noqa: BLE001
@@ -517,17 +496,20 @@ def _run_flow(case):
         Node.run = orig_run
         Composite.register_child_starting = orig_starting
 
-    lab = lambda l: int(l[1:])  # noqa: E731
     n = len(ns)
+    by_label = {nd.label: i for i, nd in enumerate(ns)}
+    lab = lambda l: by_label.get(l, 999)  # noqa: E731
     exec_log = [lab(l) for l in wf.provenance_by_execution]
     done_log = [lab(l) for l in wf.provenance_by_completion]
     calls = [(t, [canon(x) for x in a]) for (t, a) in N.CALL_LOG]
-    outs = [canon(ns[i].outputs[N.OUT[case["nodes"][i]["kind"]]].value) for i in range(n)]
+    n_case = len(case["nodes"])
+    outs = [canon(ns[i].outputs[N.OUT[case["nodes"][i]["kind"]]].value if i < n_case
+                  else ns[i].outputs.user_input.value) for i in range(n)]
     failed = [i for i in range(n) if ns[i].failed]
     labid = {}
     for i, nd in enumerate(ns):
         for c, name in enumerate(CH):
-            labid[f"n{i}__{name}"] = _sig(i, c)
+            labid[f"{nd.label}__{name}"] = _sig(i, c)
     rec = []
     for i in range(n):
         a = ns[i].signals.input.accumulate_and_run
@@ -552,6 +534,7 @@ def _run_flow(case):
     kinds = [nd["kind"] for nd in case["nodes"]]
     stats = {
         "flows": 1,
+        f"flow_host:{case.get('host', 'workflow')}{'+ui' if case.get('ui') else ''}": 1,
         "flow_child_runs": len(exec_log),
         "flow_loops": 1 if len(exec_log) > len(set(exec_log)) else 0,
         "flow_with_if": 1 if "if" in kinds else 0,
@@ -564,20 +547,32 @@ def _run_flow(case):
             "running": [i for i in range(n) if ns[i].running]}
 
 
-def _flow_model_input(case):
+def _flow_model_lines(case):
     lines = []
     for i, nd in enumerate(case["nodes"]):
         fl = ",".join(str(x) for x in nd.get("fail", [])) or "-"
         lines.append(f"node {i} {nd['kind']} {1 if nd['cache'] else 0} {fl}")
         for tok in nd["own"]:
             lines.append(f"slot {i} {tok}")
+    if case.get("ui"):  # the macro's UI node: the library's own UserInput holding the macro input "d"
+        u = len(case["nodes"])
+        lines += [f"node {u} ident 1 -", f"slot {u} d", f"quiet {u}"]
     for dst, slot, src in case["data"]:
         lines.append(f"dconn {dst} {slot} {src}")
     for src, c, dst, acc, _via in case["sig"]:
         lines.append(f"sconn {_sig(src, c)} {dst} {1 if acc else 0}")
     lines.append("starters " + " ".join(str(i) for i in case["starters"]))
-    lines.append(f"run {MODEL_FUEL}")
     return lines
+
+
+def _flow_model_input(case):
+    lines = _flow_model_lines(case)
+    if case.get("host") != "macro":
+        return lines + [f"run {MODEL_FUEL}"]
+    ui = f" {len(case['nodes'])}" if case.get("ui") else ""
+    # the macro constructor's treatment of the hand-made wiring: as pinned, then — after `reset` — as repaired by
+    # fixes/C02-macro-keep-signal-order.patch; `diff` accepts agreement with either
+    return (lines + [f"mconfig P{ui}", f"run {MODEL_FUEL}", "reset"] + lines + [f"mconfig R{ui}", f"run {MODEL_FUEL}"])
 
 
 # ---- the oracle's plain queue interpreter (python values, identity of signals) ----------------
@@ -665,7 +660,8 @@ def interpret(case, max_runs=MAX_RUNS):
                 cached[i] = list(args)
             attempts[i] += 1
             order.append(i)
-            calls.append((i, [canon(a) for a in args]))
+            if not nd.get("quiet"):
+                calls.append((i, [canon(a) for a in args]))
             try:
                 if attempts[i] in nd.get("fail", []):
                     raise RuntimeError
@@ -700,11 +696,52 @@ def interpret(case, max_runs=MAX_RUNS):
     return {"exec": order, "calls": calls, "outs": [canon(v) for v in out], "failed": [i for i in range(n) if failed[i]]}
 
 
+def as_plain_flow(case, reorder=False):
+    """A macro-hosted case as the plain flow its documentation promises: the hand-made connections as written
+    (newest first), the remaining UI node upstream of the starting nodes (`starter << ui`) and started first.
+    With `reorder` the connections are listed in the order in which the pinned `_configure_graph_execution`
+    re-makes them (child by child, `run` before `accumulate_and_run`, each list front to back) — used only to
+    CLASSIFY a failure as the known re-ordering defect, never to excuse one."""
+    if case.get("host") != "macro":
+        return case
+    nodes = [dict(nd) for nd in case["nodes"]]
+    sig = [list(e) for e in case["sig"]]
+    n = len(nodes)
+    if reorder:
+        run_in = [[] for _ in range(n)]
+        acc_in = [[] for _ in range(n)]
+        seen = set()
+        for src, c, dst, acc, via in sig:
+            if (src, c, dst, acc) in seen:
+                continue
+            seen.add((src, c, dst, acc))
+            (acc_in if acc else run_in)[dst].insert(0, [src, c, dst, acc, via])
+        sig = [e for i in range(n) for e in run_in[i] + acc_in[i]]
+    starters = list(case["starters"])
+    if case.get("ui"):
+        nodes.append({"kind": "ident", "cache": True, "fail": [], "own": ["d"], "quiet": True})
+        for st in starters:
+            sig.append([n, 0, st, 1, "lshift"])
+        starters = [n]
+    return {"kind": "flow", "nodes": nodes, "data": case["data"], "sig": sig, "starters": starters}
+
+
+def _matches(impl, exp):
+    return (impl["exec"] == exp["exec"] and [(t, list(a)) for t, a in impl["calls"]] == [(t, list(a)) for t, a in exp["calls"]]
+            and impl["outs"] == exp["outs"])
+
+
 def _flow_oracle(case, impl):
-    exp = interpret(case, max_runs=4 * MAX_RUNS)
+    exp = interpret(as_plain_flow(case), max_runs=4 * MAX_RUNS)
+    explained = None
+    if case.get("host") == "macro" and exp is not None and impl["outcome"] in ("ok", "failedchild") and not _matches(impl, exp):
+        alt = interpret(as_plain_flow(case, reorder=True), max_runs=4 * MAX_RUNS)
+        if alt is not None and _matches(impl, alt):
+            explained = "macro-reconnect-reorder"
     kinds = sorted({nd["kind"] for nd in case["nodes"]})
     sig = lambda clause: {"clause": clause, "trigger": "run", "kinds": kinds,  # noqa: E731
-                          "allof": any(a for (_s, _c, _d, a, _v) in case["sig"])}
+                          "allof": any(a for (_s, _c, _d, a, _v) in case["sig"]),
+                          "host": case.get("host", "workflow"), "explained_by": explained}
     if exp is None:
         return []  # the generator never emits such a case; nothing to demand of a non-terminating flow
     fails = []
@@ -810,7 +847,7 @@ def _first_diff(view, model):
 
 def diff(case, impl, model):
     view = impl["obs"]
-    if case["kind"] != "trig":
+    if case["kind"] != "trig" and not (case["kind"] == "flow" and case.get("host") == "macro"):
         return _first_diff(view, model)
     if "reset" not in model:
         return {"index": -1, "impl": "two model variants expected", "model": model[:2]}
@@ -823,7 +860,7 @@ def diff(case, impl, model):
     if dr is None:
         return None
     best = dp if dp["index"] >= dr["index"] else dr
-    best["variant"] = "label-keyed (pinned)" if best is dp else "identity-keyed (repaired)"
+    best["variant"] = "pinned" if best is dp else "repaired"
     return best
 
 
@@ -1099,27 +1136,63 @@ TEMPLATES = [_tpl_chain, _tpl_diamond, _tpl_branch, _tpl_loop, _tpl_loop, _tpl_a
              _tpl_random]
 
 
+def _terminates(case):
+    """the plain interpreter finishes — for a macro host also on the wiring the pinned constructor re-makes"""
+    if interpret(as_plain_flow(case)) is None:
+        return False
+    return case.get("host") != "macro" or interpret(as_plain_flow(case, reorder=True)) is not None
+
+
+def _to_macro(rng, case):
+    """the same hand wiring inside a macro's graph creator; half of them with a macro input that feeds two or
+    three child inputs (so that its UI node stays and becomes the starting node)"""
+    case = {**case, "host": "macro"}
+    if rng.random() < 0.5:
+        n = len(case["nodes"])
+        slots = [(i, k) for i, nd in enumerate(case["nodes"]) if nd["kind"] in ("term", "ident", "if", "append")
+                 for k in range(len(nd["own"])) if not (nd["kind"] == "append" and k == 0)]
+        if len(slots) >= 2:
+            data = [list(d) for d in case["data"]]
+            for (i, k) in rng.sample(slots, rng.choice([2, 2, 3]) if len(slots) >= 3 else 2):
+                data.insert(rng.randrange(len(data) + 1), [i, k, n])
+            case = {**case, "data": data, "ui": True}
+    return case
+
+
 def _gen_flow(rng):
     for _ in range(50):
         case = rng.choice(TEMPLATES)(rng)
         for _ in range(rng.choice([0, 0, 1, 2])):
             case = _perturb(rng, case)
-        if _valid_flow(case) and interpret(case) is not None:
+        if rng.random() < 0.3:
+            case = _to_macro(rng, case)
+        if _valid_flow(case) and _terminates(case):
             return case
     return _tpl_chain(rng)
 
 
 def _valid_flow(case):
     kinds = [nd["kind"] for nd in case["nodes"]]
+    n = len(kinds)
     for src, c, dst, _acc, _via in case["sig"]:
         if c >= 2 and kinds[src] != "if":
             return False
+    if not case["starters"]:
+        return False
     # the workflow itself must be ready: every unconnected child input holds data
     fed = {(d, s) for d, s, _ in case["data"]}
     for i, nd in enumerate(case["nodes"]):
         for s, tok in enumerate(nd["own"]):
             if tok == "ND" and (i, s) not in fed:
                 return False
+    ui_feeds = {(d, s) for d, s, src in case["data"] if src == n}
+    if case.get("ui"):
+        if case.get("host") != "macro" or len(ui_feeds) < 2:
+            return False  # a UI node feeding a single child is purged by the macro
+    elif ui_feeds:
+        return False
+    if case.get("host") == "macro" and not case["sig"]:
+        return False  # starting nodes without run signals: the macro refuses to be built
     return True
 
 
@@ -1156,6 +1229,16 @@ def gen_cases(rng, tier):
 
 
 def corpus():
+    # a hand-wired macro: children a, b, c; `a >> c` then `a >> b` (b is the newest receiver); start a.
+    # As written: a, b, c (what the same wiring does in a workflow). The pinned macro re-makes the connections: a, c, b
+    abc = {"kind": "flow", "nodes": [_node("term", ["d", "d", "d"]) for _ in range(3)], "data": [],
+           "sig": [[0, 0, 2, 0, "rshift"], [0, 0, 1, 0, "rshift"]], "starters": [0]}
+    yield {**abc, "host": "macro"}
+    yield abc
+    # a macro input feeding two children: its UI node runs first, the hand-named starting node waits for it
+    yield {"kind": "flow", "host": "macro", "ui": True, "nodes": [_node("term", ["d", "d", "d"]) for _ in range(3)],
+           "data": [[0, 0, 3], [1, 1, 3], [2, 0, 1]], "sig": [[0, 0, 1, 0, "rshift"], [1, 0, 2, 1, "lshift"], [0, 0, 2, 1, "lshift"]],
+           "starters": [0]}
     # the same defect inside a RUNNING workflow: emitters in two scopes with one scoped label
     yield {"kind": "xscope", "same_label": True}
     yield {"kind": "xscope", "same_label": False}
@@ -1203,11 +1286,11 @@ def shrink_candidates(case):
     elif case["kind"] == "flow":
         for k in range(len(case["sig"])):
             c = {**case, "sig": case["sig"][:k] + case["sig"][k + 1:]}
-            if interpret(c) is not None:
+            if _valid_flow(c) and _terminates(c):
                 yield c
         for k in range(len(case["data"])):
             c = {**case, "data": case["data"][:k] + case["data"][k + 1:]}
-            if _valid_flow(c) and interpret(c) is not None:
+            if _valid_flow(c) and _terminates(c):
                 yield c
         if len(case["starters"]) > 1:
             yield {**case, "starters": case["starters"][:1]}
